@@ -28,6 +28,10 @@ def main():
         if a.setup:
             return C.setup()
         if a.replay:
+            import json as _json
+            d = _json.load(open(a.replay))
+            if d.get('kind') == 'compile':
+                return C.replay_compile(d)
             return D.replay_file(a.replay, C.exe_for_replay)
         if a.determinism:
             return C.determinism(a.determinism, seed, a.runs or 2000)
